@@ -106,7 +106,20 @@ TEX_SPECIALS = ["\\e", "{", "}", "$", "&", "#", "^", "_", "%", "~", "\xa0"]
 TEXT_POSITIONS = ["%s", "x %s y", ".Sm %s", ".Sm a %s", ".Bm\n%s\n.Em", ".Ch %s", ".Sh %s\n.Tc", ".P %s", ".Bl\n.It %s\n.El", ".Bl -t desc\n.It %s\nv\n.El",
                   ".Bl -t table %s\n.It %s\n.Ta %s\n.El\n.Tc -lot", ".Bl -t verse %s\n.It %s\n.El", ".Lk http://a %s", ".Im i.png %s\n.Tc -lof",
                   ".Sm -id %s w", ".Bm -id %s\nt\n.Em", ".Bd -id %s\nt\n.Ed", ".Ch -id %s T\n.Sx %s", ".Bl -id %s\n.It a\n.El", ".D\n%s", ".#dv v %s\n\\*[v]", ".Lk %s", ".Lk %s l", ".Im -link %s i.png",
-                  ".Lk http://a.b/?q=%s", ".Lk http://a.b/?q=%s l", ".Lk http://a.b/c#%s"]
+                  ".Lk http://a.b/?q=%s", ".Lk http://a.b/?q=%s l", ".Lk http://a.b/c#%s",
+                  ".X dtag -f latex -t q -c %s\n.Bd -t q\nt\n.Ed", ".X mtag -f latex -t m -c %s\n.Sm -t m w"]
+
+# configuration values that reach markup without being rendered (D29-D33): image names with special characters
+# (the harness creates them), raw parameters, header ids used as anchors or file names
+CONFIG_DOCS = [".Im b\\e.png", ".Im b\\e.png cap", ".Im c&o.png", ".Im c\"o.png", ".Im c&o.png cap",
+               ".X set lang e\"n\nt", ".X set xhtml-css a&b\".css\nt", ".X set xhtml-favicon f\"<.ico\nt", ".X set dmark <\n.D\nt", ".X set dmark &\n.D\nt",
+               ".X set xhtml-custom-ids 1\n.Ch -id a&b T\nt\n.Sh -id c\"d U\n.Tc\n.Sx a&b", ".X set xhtml-custom-ids 1\n.Ch -id a<b T\n.Tc",
+               ".X set xhtml-chap-custom-filenames 1\n.Ch -id a&b T\nt\n.Ch -id c\"d U\nu\n.Tc", ".X set xhtml-chap-custom-filenames 1\n.X set xhtml-custom-ids 1\n.Ch -id a'b T\n.Sh -id x>y U",
+               ".X set xhtml-chap-prefix p\"q\n.Ch T\nt", ".X set xhtml-chap-prefix p&q\n.Ch T\nt"]
+
+
+def config_cases(modes, pre=""):
+    return [e2e.case_of(fm, pre + d + "\n") for fm in modes for d in CONFIG_DOCS]
 
 
 def position_docs(specials, n, positions=TEXT_POSITIONS):
@@ -137,6 +150,7 @@ class C04(E2EProp):
     def plan(self, tier, rng):
         pos = [e2e.case_of("l0", d) for d in position_docs(TEX_SPECIALS, T(tier, 1, 2))] + [e2e.case_of("l0", d) for d in position_docs(["a%_b", "x#y", "50%_off", "{}", "\\e\\e"], 1)]
         return [("S-e2e-latex", fam_cases("l0", ALLFAM, T(tier, 3, 4), rng, 2, T(tier, 1500, 20000)), "LaTeX fragments: all sequences <= %d over 10 family alphabets, skeletons, random" % T(tier, 3, 4)),
+                ("S-e2e-latex-config", config_cases(["l0"]), "images with special names, raw parameters and header ids (D29-D33 class), LaTeX"),
                 ("S-e2e-latex-positions", pos, "TeX-special strings <= %d in %d text-bearing positions (text, titles, items, cells, captions, labels, ids, urls: path, query and fragment)" % (T(tier, 1, 2), len(TEXT_POSITIONS)))]
 
     def streams(self, tier, rng):
@@ -331,6 +345,8 @@ class C02(E2EProp):
         out = [("S-e2e-x0", fam_cases("x0", ALLFAM, T(tier, 3, 4), rng, T(tier, 2, 3), T(tier, 1500, 20000)), "XHTML fragments: family sequences, skeletons, random")]
         for fm in ("x1", "x2", "e3"):
             out.append(("S-e2e-" + fm, fam_cases(fm, ["head", "misc", "title"], 2, rng, None, T(tier, 300, 4000)), "mode %s" % fm))
+        out.append(("S-e2e-config", config_cases(["x0", "x1", "x2"]) + config_cases(["e3"], ".X set document-title T\n.X set epub-uuid u\n"),
+                    "images with special names, raw parameters and header ids used as anchors or file names (D31-D33 class), every XHTML mode"))
         return out
 
 
